@@ -491,6 +491,8 @@ package fzf
 //@ func startHttpServer
 //@ property C16
 //@ assert @"net.Listen(" (address.host == "localhost" || address.host == "127.0.0.1") || len(apiKey) > 0
+// (the key from the environment is the key the handler enforces - for a local listener too)
+//@ assert @"go func()" len(server.apiKey) == len(apiKey) && forall(k, 0, len(apiKey), server.apiKey[k] == apiKey[k])
 //@ cut @"go func()" the accept loop runs in its own goroutine (outside the verified subset)
 
 // ---------------------------------------------------------------- reader
@@ -1072,6 +1074,28 @@ package fzf
 //@ requires item != nil && len(Item.AsString_r0(item, stripAnsi)) < 2147483648
 //@ effect call transformer requires true
 //@ callsite Tokenize requires samestr(arg0, Item.AsString_r0(item, stripAnsi))
+
+// The terminal's mutex is released on every path of the small update methods the other goroutines call (a path that
+// returned with the lock held would freeze the interface at its next Lock).  Counted with two ghosts.
+//@ func Terminal.UpdateProgress
+//@ property C14
+//@ requires t != nil && t.reqBox != nil
+//@ ghost nl int
+//@ ghost nu int
+//@ ghost @"t.mutex.Lock()" nl = nl + 1
+//@ ghost @"t.mutex.Unlock()" nu = nu + 1
+//@ modifies *t, *t.reqBox
+//@ ensures nl == nu
+//@ func Terminal.UpdateCount
+//@ property C14
+//@ requires t != nil && t.reqBox != nil
+//@ ghost nl int
+//@ ghost nu int
+//@ ghost @"t.mutex.Lock()" nl = nl + 1
+//@ ghost @"t.mutex.Unlock()" nu = nu + 1
+//@ modifies *t, *t.reqBox
+//@ ensures nl == nu
+//@ func Terminal.deferActivation trusted
 
 // Terminal.output (what accept prints): one line per selected item when there is a selection, otherwise the current
 // item if there is one; the return value - which becomes the exit status 0 / 1 - says whether an item was printed.
